@@ -356,7 +356,11 @@ func (x *Exec) execField(node *model.Node, static string, f *model.Field, out ma
 	}
 	ck := x.nextCall(node.ID, f.Name, key)
 	x.res.Calls = append(x.res.Calls, Call{Key: ck, Args: args, Path: p})
-	if flt, bad := x.Plan[ck]; bad && flt.Kind != "nth" {
+	lk := ck
+	if x.Fl.AllOcc {
+		lk.Occ = 0
+	}
+	if flt, bad := x.Plan[lk]; bad && flt.Kind != "nth" {
 		x.fail(p, flt)
 		x.set(out, key, nil)
 		return
